@@ -519,6 +519,13 @@ class _Parser(barectf_config_parse_common._Parser):
                                                                        pkt_end_ts_ft,
                                                                        pkt_disc_er_counter_snap_ft,
                                                                        pkt_seq_num_ft)
+
+            if pkt_features.total_size_field_type.size < pkt_features.content_size_field_type.size:
+                exc = _ConfigurationParseError('`total-size-field-type` property',
+                                               f'Field type\'s size ({pkt_features.total_size_field_type.size} bits) is less than the size of the `content-size-field-type` property\'s field type ({pkt_features.content_size_field_type.size} bits)')
+                exc._append_ctx('`packet` property')
+                _append_error_ctx(exc, '`$features` property')
+
             er_features = barectf_config.DataStreamTypeEventRecordFeatures(ert_id_ft, ert_ts_ft)
             features = barectf_config.DataStreamTypeFeatures(pkt_features, er_features)
 
